@@ -77,12 +77,16 @@ def custom_entries(r, n):
     for k in range(n):
         W = [3, 5, 8, 4, 7, 6][k % 6]
         poly = r.randrange(1, 1 << W) | 1
+        if k % 3 == 2:
+            poly = (poly & ~1) or 2         # no x**0 term: register bits that no state or data bit feeds must clear
         init = r.randrange(0, 1 << W)
         refin, refout = [(False, False), (True, True), (True, False), (False, True)][k % 4]
         xo = r.choice([1, 1 << (W - 1), (1 << (W - 1)) | 2 if W > 2 else 1, r.randrange(0, 1 << W)])      # mostly not bit-palindromic
         if refout and xo == int(format(xo, f"0{W}b")[::-1], 2):
             xo = 1 if W > 1 else xo                                                                     # reflected output: never palindromic
         name = f"custom:{W}:{poly:#x}:{init:#x}:{int(refin)}:{int(refout)}:{xo:#x}"
+        out.append((name, resolve(name)))
+    for name in ("custom:8:0x6:0xff:0:0:0x0", "custom:6:0x20:0x15:1:1:0x1", "custom:4:0x0:0x9:0:1:0x3")[:max(1, n // 4)]:
         out.append((name, resolve(name)))
     return out
 
@@ -115,6 +119,22 @@ def sw_symbolic(job):
     try:
         paths = explore(scen, max_paths=8)
     except (Inconclusive, Unsupported) as e:
+        # the code left the subset the symbolic interpreter handles: nothing is proved.  A concrete probe over boundary values may
+        # still FIND a reproducing counterexample (it can never make the obligation pass).
+        rr = random.Random(W * 1000 + dw * 10 + n)
+        pats = lambda bits: [0, 1, (1 << bits) - 1, 1 << (bits - 1), 0x55555555 & ((1 << bits) - 1), 0x01020408 & ((1 << bits) - 1), rr.randrange(1 << bits)]
+        for _ in range(300):
+            cp, ci, cx = (rr.choice(pats(W)) for _ in range(3))
+            cw = [rr.choice(pats(dw)) for _ in range(n)]
+            try:
+                real = Algorithm(crc_width=W, polynomial=cp, initial_crc=ci, reflect_input=refin, reflect_output=refout, xor_output=cx)(dw).compute(cw)
+            except Exception as ex:
+                real = f"{type(ex).__name__}: {ex}"
+            ref = williams(cw, W, dw, cp, ci, refin, refout, cx)
+            if real != ref:
+                cex = {"polynomial": cp, "initial_crc": ci, "xor_output": cx, "words": cw, "compute": real, "williams": ref}
+                return [dict(res, status=VIOLATION, cex=cex, detail=f"{text}: {cex} (found by the concrete probe; symbolic run: {type(e).__name__}: {e})",
+                             signature={"kind": "software", "W": W, "dw": dw}, replay={"what": "sw", "W": W, "dw": dw, "refin": refin, "refout": refout, **cex})]
         return [dict(res, status=INCONCLUSIVE, detail=f"{type(e).__name__}: {e}")]
     for p in paths:
         if p.exc is not None:
@@ -301,6 +321,10 @@ def match_obligations(name, a, dw, base):
         differs = sym_or(differs, neq_term(x, y))
     props = {"match-own-trailer": (neq_term(feed(R, own), res_reg), "register after (any message, its own CRC in transmission order) == residue()"),
              "match-other-trailer": (sym_and(differs, sym_not(neq_term(feed(R, other), res_reg))), "no other trailer leaves the residue")}
+    if a.polynomial % 2 == 0:
+        # without an x**0 term one step of the register is not injective: several trailers lead to the residue (mathematics of the
+        # Williams model, not of the implementation), so only "the own trailer matches" is claimed
+        del props["match-other-trailer"]
     for kind, (bad, text) in props.items():
         r = dict(base, id=f"{name}-{kind}-{dw}", kind=kind, assertion=text, program=f"catalog.{name}({dw}).residue()",
                  symbolic=f"register state after the message: {W} bits; alternative trailer: {W} bits")
@@ -320,7 +344,7 @@ def match_obligations(name, a, dw, base):
             cR = eval_in_model(mdl, R)
             co = [eval_in_model(mdl, x) for x in other]
             real = match_concrete_state(name, dw, cR, co)
-            if real["own"] != 1 or (real["other_differs"] and real["other"] != 0):
+            if (real["own"] != 1) if kind == "match-own-trailer" else (real["other_differs"] and real["other"] != 0):
                 r.update(status=VIOLATION, detail=f"Processor(catalog.{name}({dw})) register {cR:#x}: match after own CRC {real['own_trailer']} = "
                          f"{real['own']}, after trailer {co} = {real['other']}", signature={"kind": kind, "entry": name},
                          replay={"what": "match", "name": name, "dw": dw, "reg": cR, "other": co})
@@ -433,11 +457,11 @@ def replay(path):
     if r["what"] == "match" and "reg" in r:
         real = match_concrete_state(r["name"], r["dw"], r["reg"], r["other"])
         print(real)
-        return 1 if real["own"] != 1 or (real["other_differs"] and real["other"] != 0) else 0
+        return 1 if real["own"] != 1 or (resolve(r["name"]).polynomial % 2 == 1 and real["other_differs"] and real["other"] != 0) else 0
     if r["what"] == "match":
         real = match_concrete(r["name"], r["dw"], r["msg"], r["other"])
         print(real)
-        return 1 if real["own"] != 1 or (real["other_differs"] and real["other"] != 0) else 0
+        return 1 if real["own"] != 1 or (resolve(r["name"]).polynomial % 2 == 1 and real["other_differs"] and real["other"] != 0) else 0
     if r["what"] == "hw":
         print(hw_concrete(r["name"], r["dw"], r["state"]))
         return 1
@@ -462,6 +486,11 @@ def main(tier, seed):
                             continue
                         jobs.append({"id": f"sw-W{W}-d{dw}-n{n}-{int(refin)}{int(refout)}", "what": "sw", "W": W, "dw": dw, "n": n,
                                      "refin": refin, "refout": refout})
+    # words of more than one octet (one word each)
+    for W in (3, 8) if tier == "quick" else (1, 3, 5, 8):
+        for dw in (16,) if tier == "quick" else (9, 12, 16):
+            for refin in (False, True):
+                jobs.append({"id": f"sw-W{W}-d{dw}-n1-{int(refin)}{int(W % 2)}", "what": "sw", "W": W, "dw": dw, "n": 1, "refin": refin, "refout": bool(W % 2)})
     nsw = len(jobs)
     entries = all_entries()
     try:
@@ -485,16 +514,19 @@ def main(tier, seed):
     a = catalog.CRC16_KERMIT if hasattr(catalog, "CRC16_KERMIT") else entries[0][1]
     words = [fresh("d0", 8, False)]
     interp = Interp(inline_modules={"amaranth.lib.crc"})
-    p, = explore(lambda: (interp.call(Parameters.compute, a(8), list(words)),
-                          williams(words, a.crc_width, 8, a.polynomial, a.initial_crc, not a.reflect_input, a.reflect_output, a.xor_output)))
-    s = z3.Solver()
-    s.add(bool_term(neq_term(*p.value)))
-    rep.twin("mutation: Williams model with the opposite input reflection must be refuted", s.check() == z3.sat)
+    try:
+        p, = explore(lambda: (interp.call(Parameters.compute, a(8), list(words)),
+                              williams(words, a.crc_width, 8, a.polynomial, a.initial_crc, not a.reflect_input, a.reflect_output, a.xor_output)))
+        s = z3.Solver()
+        s.add(bool_term(neq_term(*p.value)))
+        rep.twin("mutation: Williams model with the opposite input reflection must be refuted", s.check() == z3.sat)
+    except (Inconclusive, Unsupported) as e:
+        rep.twin("mutation: Williams model with the opposite input reflection must be refuted", False, f"compute() is outside the interpreted subset: {e}")
     rep.source_files = FILES
     rep.functions = ["amaranth.lib.crc.Parameters.compute (if-converted from source)", "amaranth.lib.crc.Parameters._reflect",
                      "amaranth.lib.crc.Parameters._matrices", "amaranth.lib.crc.Parameters.residue", "amaranth.lib.crc.Processor.elaborate",
                      "amaranth.sim._pyrtl generated code for the Processor"]
-    rep.bounds = {"symbolic_parameter_obligations": nsw, "crc_width": f"1..{maxW} with symbolic polynomial/initial/xor", "data_width": "1..8",
+    rep.bounds = {"symbolic_parameter_obligations": nsw, "crc_width": f"1..{maxW} with symbolic polynomial/initial/xor", "data_width": "1..8 (several words), 16 (quick) / 9, 12, 16 (thorough) as single words",
                   "words": "1..3 (<= 16 data bits)", "catalogue_entries": len(chosen), "of": len(entries),
                   "hardware_data_widths": "1,4,8; 16 only for crc_width <= 16 (z3 does not finish the 16-bit XOR-network equivalence above that within 300 s: stated as outside)", "match": "widths <= 32 that are a whole number of words; 1-2 message words",
                   "outside": "crc_width > 8 with symbolic parameters; messages longer than the bound (covered inductively by the step obligation); "
